@@ -143,7 +143,9 @@ Definition lastn {A} (k : nat) (l : list A) : list A := skipn (length l - k) l.
 Definition kept (h n : nat) : nat := if (0 <? h) then Nat.min n h else n.
 
 (* ---- executable entry points for the correspondence (print N / Q / bool only) -------------------------------- *)
-Definition dump_gallery (g : gallery) : list (Q * bool * N) := map (fun e => (g_q e, g_feat e, g_uid e)) g.
+(* qualities are printed as numerator / denominator (Coq's number notations for Q print some of them in decimal or hex) *)
+Definition dump_q (q : Q) : Z * Z := (Qnum q, Zpos (Qden q)).
+Definition dump_gallery (g : gallery) : list ((Z * Z) * bool * N) := map (fun e => (dump_q (g_q e), g_feat e, g_uid e)) g.
 Definition dump_track (t : vtrack) :=
   (dump_gallery (t_gal t), N.of_nat (a_collected (t_attrs t)), N.of_nat (a_len (t_attrs t)),
    a_obs (t_attrs t), a_pred (t_attrs t), a_feat (t_attrs t)).
